@@ -8,7 +8,7 @@ use serde::{Deserialize, Serialize};
 use serde_json::Value;
 
 use crate::rngs::ScriptRng;
-use crate::selharness::{build, possible, Kind, Pop, Res, Spec, WSpec};
+use crate::selharness::{build_on, possible, Ind, Kind, Padded, Pop, Res, SelPop, Spec, WSpec};
 use crate::{ensure, fail, guarded, panic_key, Ctx, Fail, Probe};
 
 #[derive(Clone, Debug, Serialize, Deserialize)]
@@ -25,6 +25,11 @@ pub struct Case {
     /// from in alternation with the first: whatever a selector remembers between calls must not leak
     #[serde(default)]
     pub second: Option<Vec<Vec<i64>>>,
+    /// 0: the populations are plain `Vec`s; k > 0: a user-defined population type whose borrowed iterator is
+    /// lazy (no exact size, lower size hint 0), whose `size()` is hand-written and whose slice view is the
+    /// live prefix of a larger backing store (k - 1 further individuals lie behind it)
+    #[serde(default)]
+    pub pop_kind: u8,
 }
 
 pub fn population<R: Res + From<i64>>(results: &[Vec<i64>], sum: impl Fn(&[i64]) -> R) -> Pop<R> {
@@ -43,13 +48,17 @@ pub fn population<R: Res + From<i64>>(results: &[Vec<i64>], sum: impl Fn(&[i64])
         .collect()
 }
 
-fn check<R: Res + From<i64>>(case: &Case, pop: &Pop<R>, second: Option<&Pop<R>>, probe: &mut Probe) -> Result<(), Fail> {
+fn check<R: Res + From<i64>, P>(case: &Case, pop: &P, second: Option<&P>, probe: &mut Probe) -> Result<(), Fail>
+where
+    P: SelPop<R>,
+    for<'a> &'a P: IntoIterator<Item = &'a Ind<R>>,
+{
     let first_pop = pop;
     let first_lens: Vec<usize> = case.results.iter().map(Vec::len).collect();
     let second_lens: Vec<usize> = case.second.as_ref().map(|s| s.iter().map(Vec::len).collect()).unwrap_or_default();
-    let n = pop.len();
+    let n = pop.as_ref().len();
     let lens = first_lens.clone();
-    let selector = match guarded(|| build::<R>(&case.spec)) {
+    let selector = match guarded(|| build_on::<R, P>(&case.spec, &mut Vec::new())) {
         Err(p) => fail!(format!("construction/panic:{}", panic_key(&p)), "building {:?} panicked: {p}", case.spec),
         Ok(Err(_overflow)) => {
             probe.label("static weight total overflows u32 (construction rejected; covered by C13)");
@@ -58,14 +67,14 @@ fn check<R: Res + From<i64>>(case: &Case, pop: &Pop<R>, second: Option<&Pop<R>>,
         Ok(Ok(s)) => s,
     };
     let first_allowed = possible(&case.spec, n, &lens);
-    let second_allowed = second.map(|p| possible(&case.spec, p.len(), &second_lens));
+    let second_allowed = second.map(|p| possible(&case.spec, p.as_ref().len(), &second_lens));
     let mut rng = ScriptRng::new(&case.script, 0xC06);
     let total_draws = if second.is_some() { case.draws.max(1) * 2 } else { case.draws.max(1) };
     for draw in 0..total_draws {
         // alternate between the two populations when there are two
         let (pop, n, lens, allowed) = match (second, &second_allowed) {
-            (Some(p2), Some(a2)) if draw % 2 == 1 => (p2, p2.len(), &second_lens, a2),
-            _ => (first_pop, first_pop.len(), &first_lens, &first_allowed),
+            (Some(p2), Some(a2)) if draw % 2 == 1 => (p2, p2.as_ref().len(), &second_lens, a2),
+            _ => (first_pop, first_pop.as_ref().len(), &first_lens, &first_allowed),
         };
         let r = guarded(|| selector.select(pop, &mut rng).map_err(|e| (e.kind(), e.to_string(), format!("{e:?}"))));
         match r {
@@ -76,7 +85,7 @@ fn check<R: Res + From<i64>>(case: &Case, pop: &Pop<R>, second: Option<&Pop<R>>,
             ),
             Ok(Ok(ind)) => {
                 ensure!(
-                    pop.iter().any(|i| std::ptr::eq(i, ind)),
+                    pop.as_ref().iter().any(|i| std::ptr::eq(i, ind)),
                     "select/not-a-member",
                     "draw {draw}: {:?} returned a reference that is not an element of the population it was given (id {})",
                     case.spec,
@@ -119,6 +128,9 @@ fn check<R: Res + From<i64>>(case: &Case, pop: &Pop<R>, second: Option<&Pop<R>>,
     if second.is_some() {
         probe.label("one selector value alternating between two populations");
     }
+    if case.pop_kind > 0 {
+        probe.label("user-defined population type (lazy iterator, hand-written size, padded store)");
+    }
     if case.spec.depth() >= 3 {
         probe.label("composite depth >= 3");
     }
@@ -146,14 +158,23 @@ fn wb(w: &WSpec, n: usize, m: usize) -> bool {
 }
 
 pub fn oracle(case: &Case, probe: &mut Probe) -> Result<(), Fail> {
+    let extra = usize::from(case.pop_kind.saturating_sub(1));
     if case.errors {
         let pop = population::<ErrRes<i64>>(&case.results, |r| ErrRes(r.iter().sum()));
         let second = case.second.as_ref().map(|s| population::<ErrRes<i64>>(s, |r| ErrRes(r.iter().sum())));
-        check(case, &pop, second.as_ref(), probe)
+        if case.pop_kind == 0 {
+            check::<ErrRes<i64>, Pop<ErrRes<i64>>>(case, &pop, second.as_ref(), probe)
+        } else {
+            check::<ErrRes<i64>, Padded<ErrRes<i64>>>(case, &Padded::new(pop, extra), second.map(|s| Padded::new(s, extra)).as_ref(), probe)
+        }
     } else {
         let pop = population::<Score<i64>>(&case.results, |r| Score(r.iter().sum()));
         let second = case.second.as_ref().map(|s| population::<Score<i64>>(s, |r| Score(r.iter().sum())));
-        check(case, &pop, second.as_ref(), probe)
+        if case.pop_kind == 0 {
+            check::<Score<i64>, Pop<Score<i64>>>(case, &pop, second.as_ref(), probe)
+        } else {
+            check::<Score<i64>, Padded<Score<i64>>>(case, &Padded::new(pop, extra), second.map(|s| Padded::new(s, extra)).as_ref(), probe)
+        }
     }
 }
 
@@ -238,15 +259,17 @@ pub fn strategy(max_n: usize) -> BoxedStrategy<Case> {
                 crate::rngs::script_strategy(20),
                 1u8..4,
                 prop_oneof![3 => Just(None), 1 => results_strategy(max_n_of(n)).prop_map(Some)],
+                prop_oneof![3 => Just(0u8), 1 => 1u8..5],
             )
         })
-        .prop_map(|(results, errors, spec, script, draws, second)| Case {
+        .prop_map(|(results, errors, spec, script, draws, second, pop_kind)| Case {
             results,
             errors,
             spec,
             script,
             draws,
             second,
+            pop_kind,
         })
         .boxed()
 }
